@@ -26,8 +26,11 @@ def digest_run(scn, base, plan, files, gate_seed, trace=False, path_fault=None):
     hook = None
     if path_fault:
         hook, _ = R.path_fault_hook(path_fault)
+    lt = R.LockTrace()
     res = P.run_tool(scn, base, faults=R.realise_plan(plan, files), upstream_files=files,
-                     gate=make_gate(gate_seed) if gate_seed is not None else None, trace=trace, on_event=hook)
+                     gate=make_gate(gate_seed) if gate_seed is not None else None, trace=trace, on_event=hook,
+                     prepare=lt.prepare, on_downloader=lt.on_downloader)
+    res.lock_row = lt.row(scn.nthreads)
     tree = {}
     for r in scn.repos:
         t = P.tree_listing(base / "mirror" / P.repo_dir(r["url"]))
@@ -87,7 +90,7 @@ def gen_case(rng, force_twin=False):
     return scn, {"seed": rng.getrandbits(32), "twin": twin, "shared": shared}
 
 
-def run_case(rep, scn, case, sb, tag, n_orders, n_seeds):
+def run_case(rep, scn, case, sb, tag, n_orders, n_seeds, lrows=None):
     rng = random.Random(case["seed"])
     files = R.files_of(scn)
     plan = R.gen_fault_plan(rng, scn, files, density=rng.choice([0, 1, 2, 3]))
@@ -118,6 +121,9 @@ def run_case(rep, scn, case, sb, tag, n_orders, n_seeds):
         d, res = digest_run(scn, base, plan, files, None if k == 0 else case["seed"] + k, path_fault=path_fault)
         digests.append(json.loads(json.dumps(d, sort_keys=True)))
         labels.append(f"order{k}")
+        if lrows is not None:
+            lrows.append(({"scenario": {"repos": scn.repos, "nthreads": scn.nthreads}, "case": case, "plan": plan,
+                           "run": f"order{k}"},) + tuple(res.lock_row))
         shutil.rmtree(base, ignore_errors=True)
     for k in range(n_seeds):
         base = sb / f"{tag}_h{k}"
@@ -180,18 +186,65 @@ def run(rep: C.Report):
     n, no, ns = (24, 4, 2) if rep.tier == "quick" else (600, 12, 6)
     sb = P.sandbox("vsb_c15_")
     found = False
+    lrows = []
     try:
         for i in range(n):
             scn, case = gen_case(rng)
-            found |= run_case(rep, scn, case, sb, f"r{i}", no, ns)
+            found |= run_case(rep, scn, case, sb, f"r{i}", no, ns, lrows)
         # byte-identical sibling indices: many completion orders of small scenarios
         trng = random.Random(rep.seed + 1515)
         for i in range(16 if rep.tier == "quick" else 300):
             scn, case = gen_case(trng, force_twin=True)
-            found |= run_case(rep, scn, case, sb, f"t{i}", 8, 0)
+            found |= run_case(rep, scn, case, sb, f"t{i}", 8, 0, lrows)
     finally:
         shutil.rmtree(sb, ignore_errors=True)
+    found |= locks_tie(rep, lrows, found)
     C.proof_verdict(rep, found)
+
+
+LOCKS_MAX_EVENTS = 700
+
+
+def locks_tie(rep, lrows, found):
+    """every in-process run's lock / semaphore schedule replayed on PathLocks.v"""
+    header = R.LockTrace.HEADER + R.LockTrace.DEFS
+    # the model's state is a function updated step by step: evaluation is quadratic in the schedule length, so
+    # very long schedules (hundreds of files) are left to the semaphore tie of C14
+    big = [1 for _, term, meta in lrows if term is not None and meta["events"] > LOCKS_MAX_EVENTS]
+    rep.count("locks_tie.skipped_long_schedules", len(big))
+    good = [(jc, term, meta) for jc, term, meta in lrows if term is not None and meta["events"] <= LOCKS_MAX_EVENTS]
+    hit = False
+    for jc, term, meta in lrows:
+        if term is None and not found and not hit:
+            hit = True
+            rep.violation(f"correspondence locks: the observed lock schedule is not one of PathLocks.v: {meta}",
+                          {"kind": "correspondence", "tie": "locks", "case": jc, "theorem": "files_sharing_a_path_never_overlap"},
+                          tags={"kind": "tie", "tie": "locks"}, no_failing_input=True)
+    for _, _, m in good:
+        rep.count("locks_tie.runs")
+        rep.count("locks_tie.file_tasks", m["tasks"])
+        rep.count("locks_tie.events", m["events"])
+        rep.count("locks_tie.paths_shared_between_files", m["shared_locks"])
+    mism, errors = C.run_mismatch_shards(rep.prop, "locks", header, "m_locks", "eq3",
+                                         [(t, "(true, true, true)") for _, t, _ in good], shard=10)
+    rep.ties["locks"] = {"cases": len(good), "mismatches": len(mism), "errors": len(errors)}
+    if errors:
+        rep.violation(f"correspondence locks: model evaluation failed: {errors[0][:300]}",
+                      {"kind": "correspondence-error", "tie": "locks", "errors": errors[:3]},
+                      tags={"kind": "tie-error", "tie": "locks"}, no_failing_input=True)
+    for i in mism[:1]:
+        if found or hit:
+            break
+        jc, term, meta = good[i]
+        out = C.coq_show(header, f"m_locks {term}", name=f"show_{rep.prop}_locks")
+        hit = True
+        rep.violation("correspondence locks: (locks taken in increasing order, schedule accepted and every file "
+                      f"processed, locks taken = the paths of the file) = {out[-120:]}: the hypothesis of "
+                      "files_sharing_a_path_never_overlap is no longer established by the code's locking",
+                      {"kind": "correspondence", "tie": "locks", "case": jc, "model": out[-300:], "meta": meta,
+                       "theorem": "files_sharing_a_path_never_overlap"},
+                      tags={"kind": "tie", "tie": "locks"}, no_failing_input=True)
+    return hit
 
 
 def replay(rep: C.Report, path: str):
